@@ -14,7 +14,8 @@ from .core import SimAbort  # noqa: F401  (re-exported for engines)
 
 ALL_NET_KINDS = ("req_loss", "rep_loss", "rep_delay", "rep_dup",
                  "req_delay", "req_dup", "rep_batch")
-CLOCK_KINDS = ("host_stall", "clock_jump_fwd", "clock_jump_back")
+CLOCK_KINDS = ("host_stall", "clock_jump_fwd", "clock_jump_back",
+               "spurious_wakeup")
 MACHINE_KINDS = ("retryable_rc", "fatal_rc", "slow_machine")
 
 
@@ -384,6 +385,18 @@ class SimSelectModule(object):
         def ready():
             return any(s.inbox for s in socks)
         sim.run_due()
+        pw = self._net.policy.rate("spurious_wakeup")
+        if pw > 0 and socks and not ready() and self._net.tape.chance(pw):
+            # select() may report a socket readable although the following
+            # recv() finds nothing (e.g. a datagram discarded for a bad
+            # checksum): return early - somewhere inside the time asked for -
+            # with the socket listed
+            self._net.world.fault("spurious_wakeup")
+            sim.run_until(sim.now + max(0.0, timeout) *
+                          self._net.tape.draw(4) / 4.0, ready)
+            sim.trace.ev("spurious-wakeup")
+            self._net.world.check_pending()
+            return list(socks), [], []
         sim.run_until(sim.now + max(0.0, timeout), ready)
         self._net.world.check_pending()
         return [s for s in socks if s.inbox], [], []
